@@ -101,6 +101,7 @@ def obj2d(o, t=T0):
         roi=tuple(int(v) for v in roi) if roi is not None else None,
         uuid=o.get("uuid"),
         visibility=visibility(o.get("vis")),
+        position=tuple(float(c) for c in o["pos"]) if o.get("pos") is not None else None,
     )
 
 
